@@ -63,6 +63,7 @@ type Contract struct {
 	GhostSet     map[string]int64 // ghost variables set on entry
 	Implements   []string         // interface-method contracts whose clauses this function inherits
 	Afters       []AfterStmt      // auxiliary ghost assignments after calls (caller-owned history variables)
+	Props        []string         // properties this function is verified under regardless of clause tags
 	Taints       []TaintDecl      // taint sources: locations labelled at entry (C18)
 	TaintAware   bool             // the contract states taint explicitly (no default propagation)
 	Alias        map[string]int   // extra parameter names (of inherited clauses) -> parameter index
